@@ -251,7 +251,7 @@ static char pbuf[NSLOT][3];
 #define ID(i) ((uint64_t)KV(i))
 #define VALID(i) (KV(i) >= 256)
 static void mk_key(key_t_ *k, int i) {
-    pbuf[i][0] = (char)(KV(i) / 256); pbuf[i][1] = (char)(KV(i) % 256); pbuf[i][2] = 0;
+    { int a = (int)(KV(i) / 256), b = (int)(KV(i) % 256); pbuf[i][0] = (char)(a < 128 ? a : a - 256); pbuf[i][1] = (char)(b < 128 ? b : b - 256); pbuf[i][2] = 0; }
     k->path = pbuf[i]; k->events = nondet_uint();
     VF_ASSUME(k->events > 0);
 }
